@@ -58,6 +58,13 @@ LEGACY_ALIASES = {
     "manylinux2014_x86_64": "manylinux_2_17_x86_64",
     "manylinux2014_i686": "manylinux_2_17_i686",
 }
+# The same aliases for any architecture (manylinux2014 also covers aarch64,
+# armv7l, ppc64, ppc64le and s390x).
+LEGACY_MANYLINUX = {
+    "manylinux1": "manylinux_2_5",
+    "manylinux2010": "manylinux_2_12",
+    "manylinux2014": "manylinux_2_17",
+}
 MANYLINUX_REGEX = r"manylinux_([0-9]+)_([0-9]+)_(.*)"
 MACOSX_REGEX = r"macosx_([0-9]+)_([0-9]+)_(.*)"
 
@@ -100,6 +107,14 @@ def _get_platform_tags() -> Sequence[str]:
     return (plat.replace(".", "_").replace("-", "_"),)
 
 
+def _normalize_manylinux(tag: str) -> str:
+    """Spell a legacy manylinux platform tag the PEP 600 way."""
+    legacy, sep, arch = tag.partition("_")
+    if sep and legacy in LEGACY_MANYLINUX:
+        return LEGACY_MANYLINUX[legacy] + "_" + arch
+    return tag
+
+
 def get_system_arch() -> str:
     uname_info = platform.uname()
     return uname_info[4]
@@ -112,7 +127,7 @@ def manylinux_tag_is_compatible_with_this_system(tag: str) -> bool:
     if glibc_version is None:
         return False
 
-    tag = LEGACY_ALIASES.get(tag, tag)
+    tag = _normalize_manylinux(tag)
     manylinux_match = re.match(MANYLINUX_REGEX, tag)
     if not manylinux_match:
         return False
@@ -358,7 +373,7 @@ class Candidate:  # pylint: disable=too-many-instance-attributes
                 plat_score = 0
                 continue
             try:
-                plat = LEGACY_ALIASES.get(plat, plat)
+                plat = _normalize_manylinux(plat)
                 manylinux_match = re.match(MANYLINUX_REGEX, plat)
                 if manylinux_match is not None:
                     this_score = int(manylinux_match.groups()[0]) * 10 + int(
